@@ -3,18 +3,22 @@
 import json, os, re
 ROOT = os.path.dirname(os.path.dirname(os.path.abspath(__file__)))
 res = json.load(open(os.path.join(ROOT, "seeded", "RESULTS.json")))
+for name, r in res.items():            # reasons recorded in the seed's meta.json after the run count as well
+    mp = os.path.join(ROOT, "seeded", name, "meta.json")
+    if os.path.exists(mp):
+        r["out_of_domain"] = json.load(open(mp)).get("out_of_domain") or r.get("out_of_domain")
 rows = ["| seeded change | property | what was changed (abridged) | caught by |", "|---|---|---|---|"]
 for name in sorted(res):
     r = res[name]
     what = re.sub(r"\s+", " ", str(r.get("what") or ""))[:150].replace("|", "/")
-    caught = ', '.join(r.get('caught_by') or []) or ('not caught -- outside the property\'s quantifier: ' + str(r['out_of_domain'])[:160] if r.get('out_of_domain') else '**not caught**')
+    caught = ', '.join(r.get('caught_by') or []) or ('not caught -- does not break the property: ' + str(r['out_of_domain'])[:160] if r.get('out_of_domain') else '**not caught**')
     rows.append(f"| {name} | {r['property']} | {what} | {caught} |")
 n = len(res)
 quick = sum(1 for r in res.values() if any(k.endswith(":quick") for k in r.get("caught_by") or []))
 anyc = sum(1 for r in res.values() if r.get("caught_by"))
 ood = sum(1 for r in res.values() if r.get("out_of_domain") and not r.get("caught_by"))
 summary = (f"{n} seeded changes; {anyc} caught, {quick} of them already by a quick check, {anyc - quick} only by a thorough check; "
-           f"{n - anyc - ood} not caught; {ood} not caught because the change only acts outside the property's quantifier.")
+           f"{n - anyc - ood} not caught; {ood} not caught because the change does not break the property (outside its quantifier, or neutralised by a later repair; reasons in the table).")
 p = os.path.join(ROOT, "DESIGN.md")
 s = open(p).read()
 a, b = s.index("<!-- SEEDED-TABLE-BEGIN -->"), s.index("<!-- SEEDED-TABLE-END -->")
